@@ -365,6 +365,10 @@ func (c *Check) indexText(f *Func, pos token.Pos) string {
 			if x.Pos() == pos {
 				txt = types.ExprString(x)
 			}
+		case *ast.BinaryExpr:
+			if x.OpPos == pos && (x.Op == token.QUO || x.Op == token.REM) {
+				txt = types.ExprString(x)
+			}
 		}
 		return true
 	})
@@ -374,6 +378,22 @@ func (c *Check) indexText(f *Func, pos token.Pos) string {
 // justifyIndex decides whether x[i] / x[a:b] cannot be out of range on this path.
 func (c *Check) justifyIndex(f *Func, pa *Path, i int, ev *Event) (bool, string) {
 	t := ev.Val
+	if t != nil && t.Op == "intdiv" && len(t.A) == 2 {
+		// integer division / remainder: the divisor is non-zero on this path
+		d := stripConv(t.A[1])
+		facts := pa.FactsBefore(i)
+		for _, lf := range ev.Local {
+			facts.Add(lf)
+		}
+		zero := atom("#0")
+		if facts.Holds(mk("==", d, zero), false) || facts.Holds(mk("<", zero, d), true) || facts.Holds(mk("nonempty", d), true) {
+			return true, "integer division by a divisor the path has established to be non-zero"
+		}
+		if d.Op == "len" && len(d.A) == 1 && facts.Holds(mk("nonempty", stripConv(d.A[0])), true) {
+			return true, "integer division by the length of a collection the path has established to be non-empty"
+		}
+		return false, "integer division by " + shortTerm(d) + " which no fact on the path shows to be non-zero (division by zero panics)"
+	}
 	if t != nil && t.Op == "elem" {
 		return true, "element under the index its own collection is being ranged with (in range by construction)"
 	}
